@@ -465,7 +465,7 @@ def _eval_nested(node, exchange):
 
 SUBS = [
     Sub("expressions", fn=check_expression, strategy=expression_case, quick=(8, 1500), thorough=(16, 40000), timeout_quick=600, timeout_thorough=3400),
-    Sub("links", fn=check_links, strategy=link_case, quick=(16, 25), thorough=(16, 600), shrink_quick=False, timeout_quick=600, timeout_thorough=3400),
+    Sub("links", collect=True, fn=check_links, strategy=link_case, quick=(16, 25), thorough=(16, 600), shrink_quick=False, timeout_quick=600, timeout_thorough=3400),
 ]
 FLOOR = {"expressions": 5000, "links:runs-with-followed-links": 20}
 
